@@ -768,6 +768,7 @@ func (r *Run) checkConnectSensors(sums *Summaries) {
 		nonSensor    bool
 		fromList     string // appended elements are elements of this list
 		underNotFlag ssa.Value
+		extra        []string
 	}
 	lists := map[string]*listInfo{} // keyed by the term string of the list's phi web root
 	appendSites := 0
@@ -791,6 +792,8 @@ func (r *Run) checkConnectSensors(sums *Summaries) {
 		if et.Op == "elem" {
 			li.fromList = et.Args[0].String()
 		}
+		loopsHere := Loops(fn)
+		own := InnermostLoop(loopsHere, b)
 		for _, g := range Guards(b) {
 			if gc, ok := g.Cond.(*ssa.Call); ok && gc.Call.StaticCallee() == isSensor && gc.Call.Args[0] == elems[0] {
 				if g.True {
@@ -798,9 +801,15 @@ func (r *Run) checkConnectSensors(sums *Summaries) {
 				} else {
 					li.nonSensor = true
 				}
+				continue
 			}
 			if f, w, ok := boolFlagOf(g.Cond); ok && g.True != w {
 				li.underNotFlag = f
+				continue
+			}
+			// any further condition inside the same loop narrows the list (e.g. only output neurons)
+			if own != nil && own.Blocks[g.At] && g.At != own.Header {
+				li.extra = append(li.extra, tm.Of(g.Cond).String())
 			}
 		}
 		lists[key] = li
@@ -828,7 +837,11 @@ func (r *Run) checkConnectSensors(sums *Summaries) {
 			oList = li
 		}
 	}
-	okChain := st.Op == "elem" && dt.Op == "elem" && dList != nil && sList != nil && oList != nil && sList.fromList == "recv.Nodes" && oList.fromList == "recv.Nodes"
+	okChain := st.Op == "elem" && dt.Op == "elem" && dList != nil && sList != nil && oList != nil && sList.fromList == "recv.Nodes" && oList.fromList == "recv.Nodes" &&
+		len(sList.extra) == 0 && len(oList.extra) == 0
+	if oList != nil && len(oList.extra) > 0 {
+		r.Note("connect-sensors: the target list is filled only under %v", oList.extra)
+	}
 	r.Check(okChain, "connect.provenance", p.Pos(fn.Pos()), "sensor list and target list partition the genome's nodes by IsSensor; the source is drawn from the sensors that were found unconnected",
 		fmt.Sprintf("cannot establish: sensors = nodes with IsSensor, targets = nodes without, source drawn from the unconnected sensors (source %s, target %s, lists found: unconnected=%v sensors=%v targets=%v)", st, dt, dList != nil, sList != nil, oList != nil))
 	// `connected` is set only under (gene.InNode == sensor) and the unconnected list is appended only when it is false after a full scan
